@@ -580,7 +580,28 @@ def _simpler(v):
     return [enc(x) for x in cands if x != v]
 
 
+def _in_domain(c):
+    """the quantifier of the property (see ASSUMPTIONS); shrinking / neighbour search stay inside it"""
+    if c["entry"] == "amdf" and c["lag"] == 0 and dec(c["zero"]) != 0:
+        return False     # 1 - z**0 is the zero polynomial: LinearFilter then yields `zero` itself (C04's corner)
+    if c["entry"] in ("maverage", "amdf", "coeffs") and c["size"] < 1:
+        return False
+    if c["entry"] == "amdf" and c["lag"] < 0:
+        return False
+    if c["entry"] == "unwrap" and dec(c["step"]) <= 0:
+        return False
+    return True
+
+
 def shrink(c):
+    return [d for d in _shrink(c) if _in_domain(d)]
+
+
+def neighbours(c):
+    return [d for d in _neighbours(c) if _in_domain(d)]
+
+
+def _shrink(c):
     xs = c["xs"]
     n = len(xs)
     if n:
@@ -615,7 +636,7 @@ def shrink(c):
         yield dict(c, cutoff=0.5)
 
 
-def neighbours(c):
+def _neighbours(c):
     xs = c["xs"]
     for i in range(min(len(xs), 16)):
         v = dec(xs[i])
